@@ -934,7 +934,7 @@ func main() {
 	rep := vh.NewReport("cryptodkg", "C34", o)
 	rep.Rule = "DKG instances on the real threshold/bls code for (t,n) from (1,1) to (7,10) (thorough: to (20,30)), coefficients served " +
 		"through the library CSPRNG hook (random, with 0, 1, small and 2^253-1 mixed in), miner ids = hash of fresh public keys; every share " +
-		"validated, 8 presented shares per instance (honest, +1, zero, other dealer, other receiver, the secret), every signature verified by every " +
+		"validated, every aggregation step of the API repeated on the same objects (aggregate twice, re-add the same shares, derive shares again) with the key checks after each repetition, 8 presented shares per instance (honest, +1, zero, other dealer, other receiver, the secret), every signature verified by every " +
 		"party, recovery from every t-subset (or a random sample above the limit), permutations, larger, smaller and duplicate-id lists; client " +
 		"threshold keys and split keys of core/encryption likewise; non-trivial = a dkg/client instance with t >= 2 in which at least one presented " +
 		"share was rejected or one recovery list was below t or had a duplicate; distinct by all inputs"
